@@ -247,7 +247,7 @@ func (m *Machine) sysIntrinsics() {
 			st := (*a[0].(*value)).(structure)
 			fs, ok := st[0].(*filterSummary)
 			if !ok {
-				return m.callRealMethod(a)
+				return m.callRealByName("(*github.com/B1NARY-GR0UP/originium/pkg/filter.Filter).Contains", a)
 			}
 			key := a[1].(Str)
 			r := m.st.False
@@ -257,6 +257,38 @@ func (m *Machine) sysIntrinsics() {
 			m.nsym++
 			fp := m.sym(fmt.Sprintf("bloomfp%d", m.nsym), 0)
 			return m.st.Or(r, fp)
+		},
+		// murmur3-32 (third-party): the real SSA always runs (so the digest's state is real and
+		// concrete inputs hash exactly); the bytes written since the last Reset are logged, and a
+		// *symbolic* Sum32 result is abstracted to UF_n(seed, b0..bn-1): "a deterministic function
+		// of the seed and the bytes written since the last Reset".
+		"(*github.com/spaolacci/murmur3.digest).Write": func(m *Machine, fr *frame, a []value) value {
+			res := m.callRealByName("(*github.com/spaolacci/murmur3.digest).Write", a)
+			if m.hashLogs == nil {
+				m.hashLogs = map[*value][]*term.Term{}
+			}
+			p := a[0].(*value)
+			for _, b := range a[1].([]value) {
+				m.hashLogs[p] = append(m.hashLogs[p], b.(*term.Term))
+			}
+			return res
+		},
+		"(*github.com/spaolacci/murmur3.digest).Reset": func(m *Machine, fr *frame, a []value) value {
+			res := m.callRealByName("(*github.com/spaolacci/murmur3.digest).Reset", a)
+			delete(m.hashLogs, a[0].(*value))
+			return res
+		},
+		"(*github.com/spaolacci/murmur3.digest32).Sum32": func(m *Machine, fr *frame, a []value) value {
+			res := m.callRealByName("(*github.com/spaolacci/murmur3.digest32).Sum32", a).(*term.Term)
+			if res.IsConst() {
+				return res
+			}
+			p := a[0].(*value)
+			d32 := (*p).(structure)
+			dp := &d32[0]
+			seed := d32[0].(structure)[3].(*term.Term)
+			args := append([]*term.Term{seed}, m.hashLogs[dp]...)
+			return m.st.App(fmt.Sprintf("murmur3_32_n%d", len(args)-1), 32, args)
 		},
 		"fmt.Sscanf": func(m *Machine, fr *frame, a []value) value {
 			s, format := strArg(a[0]), strArg(a[1])
